@@ -41,16 +41,16 @@ type wgStructure struct {
 }
 
 type wgOutcome struct {
-	Result string   `json:"result"` // ok | modelcycle | tuplecycle | invalid | other | panic
-	Err    string   `json:"err,omitempty"`
-	NW     [][]any  `json:"nw"`   // [node, "T"|"R", key, weight]
-	EW     [][]any  `json:"ew"`   // [from, k, "T"|"R", key, weight]
-	NWC    [][]any  `json:"nwc"`  // [node, type]
-	EWC    [][]any  `json:"ewc"`  // [from, k, type]
-	WDup   bool     `json:"wdup"` // some wildcard list contains a duplicate
-	Roots  []string `json:"roots"`
-	Forced bool     `json:"forced"`
-	Count  int      `json:"count"`
+	Result string    `json:"result"` // ok | modelcycle | tuplecycle | invalid | other | panic
+	Err    string    `json:"err,omitempty"`
+	NW     [][]any   `json:"nw"`   // [node, "T"|"R", key, weight]
+	EW     [][]any   `json:"ew"`   // [from, k, "T"|"R", key, weight]
+	NWC    [][]any   `json:"nwc"`  // [node, type]
+	EWC    [][]any   `json:"ewc"`  // [from, k, type]
+	WDup   bool      `json:"wdup"` // some wildcard list contains a duplicate
+	Roots  []string  `json:"roots"`
+	Forced bool      `json:"forced"`
+	Count  int       `json:"count"`
 	Events []wgEvent `json:"events,omitempty"` // steps of the weight assignment as they returned (first run with this outcome)
 	key    string
 }
@@ -420,20 +420,21 @@ type wgInput struct {
 }
 
 type wgObs struct {
-	ID                  string       `json:"id"`
-	M                   *AbsModel    `json:"m,omitempty"`
-	Structure           *wgStructure `json:"structure"`
-	BuildErr            string       `json:"builderr,omitempty"` // Build failed before AssignWeights (no structure hook call)
-	Outcomes            []*wgOutcome `json:"outcomes"`
-	Witness             []*wgOutcome `json:"witness"` // outcome of every order TLC asked for, in input order
-	Runs                int          `json:"runs"`
-	Exhaustive          bool         `json:"exhaustive"`            // all root orders were forced
-	ModelUnchanged      bool         `json:"model_unchanged"`       // proto.Equal + slice order before/after all builds
-	HookConsistent      bool         `json:"hook_consistent"`       // logged natural order replayed through the forced path gives the same outcome
-	APIStructureDiffers bool         `json:"api_structure_differs"` // the API-style protobuf of the same model gives another structure
-	TypePerm            []*wgOutcome `json:"typeperm,omitempty"`
-	OpPerm              []wgOpPerm   `json:"opperm,omitempty"`
-	Conc                []*wgOutcome `json:"conc,omitempty"`
+	ID                     string       `json:"id"`
+	M                      *AbsModel    `json:"m,omitempty"`
+	Structure              *wgStructure `json:"structure"`
+	BuildErr               string       `json:"builderr,omitempty"` // Build failed before AssignWeights (no structure hook call)
+	Outcomes               []*wgOutcome `json:"outcomes"`
+	Witness                []*wgOutcome `json:"witness"` // outcome of every order TLC asked for, in input order
+	Runs                   int          `json:"runs"`
+	Exhaustive             bool         `json:"exhaustive"`               // all root orders were forced
+	ModelUnchanged         bool         `json:"model_unchanged"`          // proto.Equal + slice order before/after all builds
+	HookConsistent         bool         `json:"hook_consistent"`          // logged natural order replayed through the forced path gives the same outcome
+	APIStructureDiffers    bool         `json:"api_structure_differs"`    // the API-style protobuf of the same model gives another structure
+	SharedStructureDiffers bool         `json:"shared_structure_differs"` // the same model with structurally equal subtrees shared (one message value) gives another structure
+	TypePerm               []*wgOutcome `json:"typeperm,omitempty"`
+	OpPerm                 []wgOpPerm   `json:"opperm,omitempty"`
+	Conc                   []*wgOutcome `json:"conc,omitempty"`
 }
 
 type wgOpPerm struct {
@@ -566,6 +567,12 @@ func sliceIdentity(m *openfgav1.AuthorizationModel) []*openfgav1.TypeDefinition 
 var recycledWGModel = &openfgav1.AuthorizationModel{}
 var previousWGModel *openfgav1.AuthorizationModel
 
+func sameJSON(a, b any) bool {
+	x, _ := json.Marshal(a)
+	y, _ := json.Marshal(b)
+	return string(x) == string(y)
+}
+
 func wgReplay(args []string) error {
 	fs := flag.NewFlagSet("wg-replay", flag.ExitOnError)
 	in := fs.String("in", "", "input ndjson")
@@ -669,6 +676,17 @@ func wgReplay(args []string) error {
 			}
 			record(run.outcome)
 		}
+		// ... and assembled from shared building blocks: structurally equal subtrees are one message value (proto.Equal to the model above)
+		sharedAbs := *inp.M
+		sharedAbs.SharedNodes = true
+		sharedModel := protoModel(&sharedAbs)
+		for i := 0; i < 3; i++ {
+			run := buildWG(sharedModel, nil)
+			if obs.Structure != nil && (run.st == nil || !sameJSON(run.st, obs.Structure)) {
+				obs.SharedStructureDiffers = true
+			}
+			record(run.outcome)
+		}
 		if obs.Structure != nil {
 			for _, n := range obs.Structure.Nodes {
 				if n.Nt == "rel" || n.Nt == "op" {
@@ -734,6 +752,9 @@ func wgReplay(args []string) error {
 				}
 			}
 			sharedBefore := proto.Clone(shared).(*openfgav1.AuthorizationModel)
+			// rounds 1 and 2: the goroutines also share ONE builder value (a builder has no state of its own; whatever it keeps
+			// per Build call must not leak between calls that overlap)
+			oneBuilder := graph.NewWeightedAuthorizationModelGraphBuilder()
 			var wg sync.WaitGroup
 			res := make([]*wgOutcome, *conc)
 			for i := 0; i < *conc; i++ {
@@ -749,7 +770,13 @@ func wgReplay(args []string) error {
 					var panicked any
 					func() {
 						defer func() { panicked = recover() }()
-						g, err = graph.NewWeightedAuthorizationModelGraphBuilder().Build(m)
+						b := graph.NewWeightedAuthorizationModelGraphBuilder()
+						if round > 0 {
+							b = oneBuilder
+						}
+						for rep := 0; rep < 4; rep++ { // several builds per goroutine: calls of different goroutines overlap
+							g, err = b.Build(m)
+						}
 					}()
 					cn := map[string]string{}
 					if g != nil {
